@@ -622,13 +622,18 @@ func init() {
 				}})
 			// the line of a run-time fault after k lines that end in LF, CRLF, or hold a stray CR
 			eols := []string{"\n", "\r\n", "\r \n", " \r x\n"}
-			secs = append(secs, core.Section{Name: "fault-lines", Exhaustive: true, N: len(faultExprs) * len(eols) * 5,
+			// (lines that hold tokens spanning lines: strings in either quote style, comments, blocks, directive arguments)
+			multi := []string{"a line", "{{ \"two\nlines\" }}", "{{ 'two\nlines' + \"x\" }}{{-- a\ncomment --}}", "@if(\"a\nb\" ==\n\"c\")x@end{{ [1,\n2].len() }}"}
+			secs = append(secs, core.Section{Name: "fault-lines", Exhaustive: true, N: len(faultExprs) * len(eols) * 5 * len(multi),
 				Run: func(c *core.Ctx, i int) {
+					filler := multi[i%len(multi)]
+					i /= len(multi)
 					k := i % 5
 					i /= 5
 					eol := eols[i%len(eols)]
 					f := faultExprs[i/len(eols)]
-					src := strings.Repeat("a line"+eol, k) + "{{ " + f + " }}" + eol + "after" + eol
+					src := strings.Repeat(filler+eol, k) + "{{ " + f + " }}" + eol + "after" + eol
+					k += k * strings.Count(filler, "\n")
 					c.Input(map[string]any{"source": src, "data": "hostileData()"})
 					got := evalString(c, src, data)
 					c.Nontrivial(src)
